@@ -132,6 +132,22 @@ def _conv_flux_int(reg, rec, k_duct_used):
     return w * h * (rec['post']['duct_surf'][0, 0] - T)
 
 
+_CLONES = {}
+
+
+def _own_clone(mat):
+    """A private copy of a coolant material for re-evaluating properties
+    (the original is kept alive with it, so its id cannot be reused)."""
+    ent = _CLONES.get(id(mat))
+    if ent is None or ent[0] is not mat:
+        with drive.quiet():
+            ent = (mat, mat.clone())
+        if len(_CLONES) > 64:
+            _CLONES.clear()
+        _CLONES[id(mat)] = ent
+    return ent[1]
+
+
 def check_rodded(res, rec, key):
     reg = rec['reg']
     dz = rec['dz']
@@ -149,6 +165,23 @@ def check_rodded(res, rec, key):
               'its own flow-weighted mean temperature is %.3f K'
               % (s_int['cool_pre']['T'], t_own), dict(key, stream='interior'),
               {'z': rec['z1']})
+    if key.get('tdep', True):
+        m_ = _own_clone(reg.coolant)
+        try:
+            with drive.quiet():
+                m_.update(t_own)
+            cp_own = float(m_.heat_capacity)
+        except SystemExit:
+            cp_own = None
+        if cp_own is not None:
+            res.close('I7b_heat_capacity_used_is_that_of_own_temperature',
+                      float(cp) - cp_own, cp_own, 1e-9,
+                      'bundle interior converted heat with cp = %.6f J/kg-K,'
+                      ' the coolant at its own mean temperature %.3f K has '
+                      '%.6f' % (float(cp), t_own, cp_own),
+                      dict(key, stream='interior'),
+                      {'z': rec['z1'], 'cp_used': float(cp),
+                       'cp_own': cp_own})
     # I1b mass: subchannel flows sum to the interior flow
     res.close('I1b_flows_sum', np.sum(mdot) - reg.int_flow_rate,
               reg.int_flow_rate, 1e-10,
@@ -256,15 +289,47 @@ def check_unrodded(res, rec, key):
     # mean temperature of the previous level (for one node: that node)
     t_own = float(np.mean(T0))
     # The six-node model refreshes the properties inside its update; the
-    # one-node model uses those in force at entry, which its own previous
-    # step (or its activation) has put at its own temperature. At the very
-    # first step of the sweep nothing of the kind has run yet: whatever
-    # set-up left in the coolant object is used (recorded finding F132).
+    # one-node model uses those in force at entry, which set-up (inlet
+    # state), its own previous step or its activation has put at its own
+    # temperature. Not asserted at the first step of a sweep that follows
+    # Reactor.reset(): reset() restores temperatures only (that is all it
+    # says it does), the property state of the previous sweep's outlet is
+    # still in force for that one step.
     first = bool(float(rec['z0']) == 0.0)
+    if first and not six and key.get('after_reset'):
+        res.count('I7_not_asserted_first_step_after_reset')
+        return_early = True
+    elif first and not six and key.get('workload') == 'repo_tests':
+        # unit-test fixtures build a region by hand and call it in whatever
+        # state the fixture left the coolant object: the premise (set-up or
+        # activation has run) does not hold for that first call
+        res.count('I7_not_asserted_first_call_on_test_fixture')
+        return_early = True
+    else:
+        return_early = False
     # (one-node model: with constant properties the evaluation temperature
     # is immaterial and the start-up state is not reported; the six-node
     # model is asserted always - it refreshes inside its own update)
-    if six or key.get('tdep', True):
+    if (six or key.get('tdep', True)) and not return_early:
+        # ... and the property VALUES are those of that temperature (the
+        # temperature attribute alone can be set without re-evaluating)
+        m_ = _own_clone(reg.coolant)
+        try:
+            with drive.quiet():
+                m_.update(t_own)
+            cp_own = float(m_.heat_capacity)
+        except SystemExit:
+            cp_own = None
+        if cp_own is not None:
+            res.close('I7b_heat_capacity_used_is_that_of_own_temperature',
+                      float(cp) - cp_own, cp_own, 1e-9,
+                      '%s region converted heat with cp = %.6f J/kg-K, the '
+                      'coolant at its own temperature %.3f K has %.6f'
+                      % (reg.model, float(cp), t_own, cp_own),
+                      dict(key, stream=('six-node' if six
+                                        else 'single-node')),
+                      {'z': rec['z1'], 'cp_used': float(cp),
+                       'cp_own': cp_own, 'T_attr': props['T']})
         res.close('I7_properties_at_own_mean_temperature',
                   props['T'] - t_own, t_own, 1e-9,
                   '%s region advanced with coolant properties at %.4f K, its '
@@ -522,7 +587,8 @@ def step_monitors(res, key, state=None):
         if reg.is_rodded:
             check_rodded(res, rec, key)
         else:
-            check_unrodded(res, rec, key)
+            check_unrodded(res, rec, dict(key, after_reset=True)
+                           if state.get('after_reset') else key)
 
     def on_rc(tok):
         check_region_change(res, tok, key)
@@ -592,6 +658,7 @@ def run_case(case):
                 # starts from whatever the first sweep left behind
                 with drive.quiet():
                     r.reset()
+                state['after_reset'] = True
                 drive.sweep(r)
                 res.tag('second_sweep_after_reset')
             rise = max(a.avg_coolant_temp for a in r.assemblies) - T_in
@@ -623,8 +690,4 @@ def classify(v, case):
     k = v.get('key', {})
     if v['monitor'] == 'I5_radial_lumping_negligible':
         return 'F17'
-    if v['monitor'] == 'I7_properties_at_own_mean_temperature' and \
-            k.get('stream') == 'single-node' and \
-            k.get('first_step_of_sweep') is True:
-        return 'F132'
     return None
